@@ -168,7 +168,10 @@ RECURSIVE Run(_, _)
 Run(st, line) == IF line = <<>> THEN st ELSE Run(Step(st, Head(line)), Tail(line))
 
 (* ------------------------------------------------------------------ Finish *)
-EnvOf(envv, it) == IF it.env = "" THEN "UNSET" ELSE envv[it.env]
+\* an item may name several variables: the first one that is set counts
+HasEnv2(it) == "env2" \in DOMAIN it /\ it.env2 # ""
+EnvOf(envv, it) == IF it.env = "" THEN "UNSET"
+                   ELSE IF envv[it.env] # "UNSET" \/ ~HasEnv2(it) THEN envv[it.env] ELSE envv[it.env2]
 
 \* value of one named item from its occurrences (environment only when absent from the line)
 HasGFlag(it) == "gflag" \in DOMAIN it /\ it.gflag
@@ -353,7 +356,8 @@ Alphabet(def) ==
 VARIABLES def, env, line, st
 vars == <<def, env, line, st>>
 
-EnvVars(d) == UNION {{l.named[k].env : k \in DOMAIN l.named} : l \in AllLevels(d)} \ {""}
+EnvVars(d) == UNION {{l.named[k].env : k \in DOMAIN l.named} \cup {l.named[k].env2 : k \in {k \in DOMAIN l.named : HasEnv2(l.named[k])}}
+                     : l \in AllLevels(d)} \ {""}
 EnvChoices(d) == [EnvVars(d) -> RangeOf(d.alpha.envvals)]
 
 CONSTANT Defs
